@@ -10,7 +10,6 @@ Three case families, ``run_case`` dispatches on ``case["t"]`` (unknown tags give
 """
 from __future__ import annotations
 
-import asyncio
 import gc
 import math
 
@@ -169,16 +168,17 @@ def _int(v, lo, hi, default):
     return max(lo, min(hi, v))
 
 
-_GC = {'frozen': False}
+def _begin_case():
+    """Collect what the previous case left behind and freeze everything that is alive now (modules, Hypothesis'
+    growing search state): the full collection at the end of the case (``_collect``) then only looks at the objects
+    this case created. Without this the cost per case grows with the number of cases already run."""
+    gc.collect()
+    gc.freeze()
 
 
 def _collect():
-    """Full collection so that dead tasks report 'exception was never retrieved'. Everything alive after the first
-    case (modules, Hypothesis state) is frozen: later collections only look at objects created since (20x cheaper)."""
+    """Full collection so that dead tasks report 'exception was never retrieved' to the loop's handler."""
     gc.collect()
-    if not _GC['frozen']:
-        gc.freeze()
-        _GC['frozen'] = True
 
 
 async def _until(loop, when):
@@ -192,13 +192,24 @@ async def _until(loop, when):
 
 def _run_world(main):
     """Like simworld.run_world but the server link has the exact binary latency LAT."""
+    keep = []
+
     async def _main(loop):
         world = simworld.World(loop, server_latency=LAT)
+        keep.append(world)
         return await main(world)
     try:
         return simloop.run_case_on_loop(_main)
     finally:
         simnet.SimNet.uninstall()
+        for world in keep:
+            # the closed loop stays reachable (virtual time namespace) until the next case starts; cut what hangs
+            # off it so that the client of this case is garbage now and not frozen by _begin_case of the next one
+            world.loop.set_exception_handler(None)
+            world.clients.clear()
+            world.server.clients.clear()
+            world.server.scripted_peers.clear()
+            world.peers.clear()
 
 
 # ---------------------------------------------------------------------------
@@ -929,6 +940,8 @@ def run_case(case) -> CaseResult:
     if not isinstance(case, dict):
         return CaseResult()
     tag = case.get('t')
+    if tag in ('search', 'timer'):
+        _begin_case()
     if tag == 'search':
         return _run_search(case)
     if tag == 'timer':
